@@ -58,6 +58,12 @@ FINDING_PRIO = "C19-held-requeued-as-19"
 def gen(rng, n, tier):
     cases = []
     for k in range(n):
+        if k % 10 == 2:
+            cases.append(_gen_late(rng))
+            continue
+        if k % 10 == 7:
+            cases.append(_gen_sync(rng))
+            continue
         mixed = rng.random() < 0.25
         uniform = None if mixed or rng.random() < 0.84 else rng.choice([10, 15, 19, 25])
         nsend = rng.randint(1, 3)
@@ -106,6 +112,63 @@ def gen(rng, n, tier):
     return cases
 
 
+def _gen_late(rng):
+    """late-target stream: >= 3 messages held (or kept) for a target that the agent's discovery
+    only learns about after the resume; the order in which they reach the communication layer is
+    observed"""
+    pool = [1, 2, 11, 12, 13, 14]
+    late = rng.sample(pool, rng.randint(1, 2))
+    t0 = late[0]
+    others = [t for t in pool if t not in late][:2]
+    ops, nid = [], 0
+    if rng.random() < 0.5:
+        ops.append(["start"])
+    for cyc in range(rng.randint(1, 2)):
+        paused = rng.random() < 0.8
+        if paused:
+            ops.append(["pause"])
+        for _ in range(rng.randint(3, 7)):
+            nid += 1
+            ops.append(["post", t0 if rng.random() < 0.75 else rng.choice(late + others), nid, None])
+        if paused:
+            ops.append(["resume"])
+        for _ in range(rng.randint(0, 2)):
+            nid += 1
+            ops.append(["post", rng.choice(late), nid, None])
+        if rng.random() < 0.8:
+            ops.append(["reg", rng.choice(late)])
+    ops += [["reg", t] for t in late if rng.random() < 0.8]
+    ops += [["start"], ["resume"], ["next"]]
+    return dict(ops=ops, late=late)
+
+
+def _gen_sync(rng):
+    """synchronous-mixin stream: a SynchronousComputationMixin computation, possibly paused before
+    it is started, whose start() posts algorithm messages to some neighbours and cycle_sync messages to
+    the others; no reception, so the cycle never switches"""
+    pool = [1, 2, 11, 12, 13, 14]
+    neighbors = rng.sample(pool, rng.randint(1, 4))
+    nid = 0
+    onstart = []
+    for t in neighbors:
+        if rng.random() < 0.4:
+            nid += 1
+            onstart.append([t, nid])
+    body = []
+    for _ in range(rng.randint(0, 8)):
+        k = rng.choices(["pause", "resume", "post"], [2, 2, 3])[0]
+        if k == "post":
+            nid += 1
+            body.append(["post", rng.choice(neighbors), nid, None])
+        else:
+            body.append([k])
+    pos = rng.randint(0, len(body))
+    ops = ([["pause"]] if rng.random() < 0.6 else []) + body[:pos] + [["start"]] + body[pos:]
+    if rng.random() < 0.8:
+        ops += [["resume"]]
+    return dict(kind="sync", neighbors=neighbors, onstart=onstart, ops=ops)
+
+
 def _fault_ops(rng, ops, mid):
     """append 1-3 cycles pause; posts; resume(s) to a (shortened) random prefix"""
     ops = ops[:rng.randint(0, min(len(ops), 12))]
@@ -128,7 +191,7 @@ def _fault_ops(rng, ops, mid):
 
 
 # ------------------------------------------------------------------ implementation driver
-def _mk():
+def _mk(late=()):
     from pydcop.infrastructure.agents import Agent
     from pydcop.infrastructure.communication import InProcessCommunicationLayer
     from pydcop.infrastructure.computations import MessagePassingComputation
@@ -150,8 +213,13 @@ def _mk():
     a.discovery.register_agent("a2", b.address, publish=False)
     for t in (n for i, n in TARGETS.items() if i != ME):
         b.add_computation(Rec(t), publish=False)
-        a.discovery.register_computation(t, "a2", publish=False)
+        if NAME2ID[t] not in late:
+            a.discovery.register_computation(t, "a2", publish=False)
     return a, b, Rec
+
+
+def _payload(msg):
+    return -1 if msg.type == "cycle_sync" else msg.content
 
 
 def _cid(name):
@@ -159,9 +227,18 @@ def _cid(name):
 
 
 def run_impl(case):
-    from pydcop.infrastructure.computations import Message
-    a, b, Rec = _mk()
+    from pydcop.infrastructure.computations import Message, MessagePassingComputation, \
+        SynchronousComputationMixin
+    a, b, Rec = _mk(case.get("late", ()))
     msging = a._messaging
+    delivered = []           # what reaches the communication layer, in order: (target, payload)
+    real_send = a._comm.send_msg
+
+    def recording_send(src_agent, dest_agent, fm, on_error=None, from_retry=False):
+        delivered.append([_cid(fm.dest_comp), _payload(fm.msg)])
+        return real_send(src_agent, dest_agent, fm, on_error=on_error)
+
+    a._comm.send_msg = recording_send
     real = msging.post_msg
     calls = []
     calls_paused = []        # is_paused at each message_sender call
@@ -170,15 +247,26 @@ def run_impl(case):
     fail = set(case.get("fail", []))
 
     def recording_post_msg(src, dst, msg, prio=None, on_error=None):
-        calls.append([_cid(src), _cid(dst), msg.content, prio])
+        calls.append([_cid(src), _cid(dst), _payload(msg), prio])
         calls_paused.append(bool(c.is_paused))
         if src == "c0" and dst != "c0" and msg.content in fail:
             raise UnreachableAgent("link down")      # what a failing communication layer does
         return real(src, dst, msg, prio, on_error)
 
     msging.post_msg = recording_post_msg      # add_computation hands this to the computation
-    c = Rec("c0")
+    if case.get("kind") == "sync":
+        class SyncRec(SynchronousComputationMixin, Rec):
+            neighbors = [TARGETS[t] for t in case["neighbors"]]
+
+            def on_start(self):
+                for t, i in case["onstart"]:
+                    self.post_msg(TARGETS[t], Message("m", i))
+
+        c = SyncRec("c0")
+    else:
+        c = Rec("c0")
     a.add_computation(c, publish=False)
+    del msging.post_msg      # only the computation's message_sender is wrapped, not Messaging's own re-posts
     unsafe = False
     raised = []
     for op in case["ops"]:
@@ -198,6 +286,8 @@ def run_impl(case):
                 c.start() if k == "start" else c.pause(False)
             except UnreachableAgent:
                 raised[-1] = True
+        elif k == "reg":
+            a.discovery.register_computation(TARGETS[op[1]], "a2", publish=False)
         elif k == "stop":
             c.stop()
         elif k == "pause":
@@ -211,7 +301,8 @@ def run_impl(case):
              for e in sorted(msging._queue.queue, key=lambda e: (e[0], e[1]))]
     return dict(handled=[[_cid(s), i] for s, i in c.log], calls=calls, queue=queue,
                 brecv=[[_cid(s), m.content] for s, m, _ in c._paused_messages_recv],
-                bpost=[[_cid(t), m.content, p] for t, m, p, _ in c._paused_messages_post],
+                bpost=[[_cid(t), _payload(m), p] for t, m, p, _ in c._paused_messages_post],
+                delivered=delivered,
                 running=bool(c.is_running), paused=bool(c.is_paused), unsafe=unsafe,
                 handled_flags=c.flags, calls_paused=calls_paused, raised=raised)
 
@@ -227,7 +318,81 @@ def _uniform_type(case):
     return ts.pop() if len(ts) == 1 else (20 if not ts else None)
 
 
+def _oracle_sync(case, o):
+    """ground truth from the case alone: the hand-over sequence of a synchronous computation"""
+    exp, seen = [], []
+    for op in case["ops"]:
+        if op[0] == "post":
+            exp.append([ME, op[1], op[2], None])
+            seen.append(op[1])
+        elif op[0] == "start":
+            for t, i in case["onstart"]:
+                exp.append([ME, t, i, None])
+                seen.append(t)
+            for t in case["neighbors"]:
+                if t not in seen:
+                    exp.append([ME, t, -1, None])      # cycle_sync
+                    seen.append(t)
+    if any(o["raised"]):
+        return "sync: a call raised"
+    sent = [c for c in o["calls"] if c[0] == ME]
+    held = [[ME, t, i, p] for t, i, p in o["bpost"]]
+    for cl, p in zip(o["calls"], o["calls_paused"]):
+        if p and cl[0] == ME:
+            return "sync posts: message %r sent while the computation is paused" % cl
+    if sent != exp[:len(sent)]:
+        return "sync posts: message_sender saw %r, expected hand-over order %r" % (sent[:8], exp[:8])
+    if sent + held != exp:
+        return "sync posts: sent %r + still held %r is not the posted sequence %r" % (sent, held, exp)
+    if not o["paused"] and held:
+        return "sync posts: %d messages still held although the computation is not paused" % len(held)
+    if [[d, i] for _, d, i, _ in sent] != o["delivered"]:
+        return "sync posts: reached the communication layer as %r, handed over as %r" % (o["delivered"], sent)
+    return None
+
+
+def _oracle_delivery(case, o, sent):
+    """what reaches the communication layer, per target: the messages handed to message_sender, in
+    posting order, each once; all of them once the target is known to the agent"""
+    ops = case["ops"]
+    fail = set(case.get("fail", []))
+    known = {t for t in TARGETS if t != ME and t not in case.get("late", [])}
+    known |= {op[1] for op in ops if op[0] == "reg"}
+    for t in TARGETS:
+        if t == ME:
+            continue
+        posted_t = [op[2] for op in ops if op[0] == "post" and op[1] == t]
+        deliv_t = [i for d, i in o["delivered"] if d == t]
+        if len(set(deliv_t)) != len(deliv_t):
+            return "delivery: target %r got a message twice: %r" % (t, deliv_t)
+        if any(o["raised"]):
+            # after a failed flush the leftovers go out on a later resume and a direct post made in
+            # between overtakes them: with send failures the order is claimed among the messages
+            # posted while paused only (same as for the hand-over order above)
+            paused, wp = False, set()
+            for op in ops:
+                if op[0] == "pause":
+                    paused = True
+                elif op[0] == "resume":
+                    paused = False
+                elif op[0] == "post" and paused:
+                    wp.add(op[2])
+            dd = [i for i in deliv_t if i in wp]
+            if dd != [i for i in posted_t if i in dd]:
+                return "delivery: target %r got the held messages as %r, posting order %r" % (t, dd, posted_t)
+        elif deliv_t != [i for i in posted_t if i in deliv_t]:
+            return "delivery: target %r got %r, posting order %r" % (t, deliv_t, posted_t)
+        handed = [c[2] for c in sent if c[1] == t and c[2] not in fail]
+        if t in known and sorted(deliv_t) != sorted(handed):
+            return "delivery: target %r is known but got %r of the handed-over %r" % (t, deliv_t, handed)
+        if t not in known and deliv_t:
+            return "delivery: %r sent to the unknown target %r" % (deliv_t, t)
+    return None
+
+
 def oracle(case, o):
+    if case.get("kind") == "sync":
+        return _oracle_sync(case, o)
     ops = case["ops"]
     recv = [[op[1], op[2]] for op in ops if op[0] == "recv"]
     posts = [[ME, op[1], op[2], op[3]] for op in ops if op[0] == "post"]
@@ -278,6 +443,9 @@ def oracle(case, o):
             return "posts: held messages handed over as %r, posting order %r" % (sub, exp)
         if not o["paused"] and not last_resume_failed and held_posts:
             return "posts: %d posted messages still held after a resume that did not fail" % len(held_posts)
+    msg = _oracle_delivery(case, o, sent)
+    if msg:
+        return msg
     # --- received messages: never handled before start / while paused
     for (s, i), (r, p) in zip(o["handled"], o["handled_flags"]):
         if not r or p:
@@ -326,14 +494,17 @@ def _op(op):
 
 
 def coq_case(case, o):
+    if case.get("kind") == "sync":
+        return None        # the mixin is not modelled: oracle only
     zz = lambda l: q.lst([q.pair(q.z(a), q.z(b_)) for a, b_ in l])
     calls = q.lst(["mkCall %s %s %s %s" % (q.z(s), q.z(d), q.z(i), q.opt(p, q.z)) for s, d, i, p in o["calls"]])
     queue = q.lst(["mkQ %s %s (mkMsg %s %s %s %s)" % tuple(q.z(x) for x in e) for e in o["queue"]])
     bpost = q.lst(["(%s, %s, %s)" % (q.z(t), q.z(i), q.opt(p, q.z)) for t, i, p in o["bpost"]])
     return "M_Lifecycle.mkLCase %s %s %s %s %s %s %s %s %s %s %s %s" % (
-        q.z(ME), q.lst([_op(x) for x in case["ops"]]), zz(o["handled"]), calls, queue,
+        q.z(ME), q.lst([_op(x) for x in case["ops"] if x[0] != "reg"]), zz(o["handled"]), calls, queue,
         zz(o["brecv"]), bpost, q.b(o["running"]), q.b(o["paused"]), q.b(not o["unsafe"]),
-        q.zlist(case.get("fail", [])), q.lst([q.b(x) for x in o["raised"]]))
+        q.zlist(case.get("fail", [])),
+        q.lst([q.b(x) for op, x in zip(case["ops"], o["raised"]) if op[0] != "reg"]))
 
 
 def nontrivial(case, o):
@@ -354,9 +525,17 @@ def _buffered_post(case):
 
 
 def histogram(cases, obs):
-    h = {"fault_stream": 0, "send_raised": 0, "failed_flush_then_resume": 0, "default_types": 0, "mixed_types": 0, "uniform_other_type": 0, "unsafe_reinject": 0, "reinjected>=2": 0, "buffered_posts": 0,
+    h = {"late_target_stream": 0, "sync_mixin_stream": 0, "sync_paused_before_start": 0, "fault_stream": 0, "send_raised": 0, "failed_flush_then_resume": 0, "default_types": 0, "mixed_types": 0, "uniform_other_type": 0, "unsafe_reinject": 0, "reinjected>=2": 0, "buffered_posts": 0,
          "len0-5": 0, "len6-20": 0, "len>20": 0}
     for c, o in zip(cases, obs):
+        if c.get("kind") == "sync":
+            h["sync_mixin_stream"] += 1
+            ks = [op[0] for op in c["ops"]]
+            if "pause" in ks[:ks.index("start")]:
+                h["sync_paused_before_start"] += 1
+            continue
+        if c.get("late"):
+            h["late_target_stream"] += 1
         h["default_types" if _is_default(c) else "uniform_other_type" if _uniform_type(c) is not None
           else "mixed_types"] += 1
         if isinstance(o, dict) and o.get("unsafe"):
@@ -380,10 +559,22 @@ def histogram(cases, obs):
 def shrink_candidates(case):
     ops = case["ops"]
     for i in range(len(ops)):
-        d = dict(ops=ops[:i] + ops[i + 1:])
-        if case.get("fail"):
-            d["fail"] = case["fail"]
+        if case.get("kind") == "sync" and ops[i][0] == "start":
+            continue
+        d = dict(case)
+        d["ops"] = ops[:i] + ops[i + 1:]
         yield d
+    if case.get("kind") == "sync":
+        for i in range(len(case["onstart"])):
+            d = dict(case)
+            d["onstart"] = case["onstart"][:i] + case["onstart"][i + 1:]
+            yield d
+        for t in case["neighbors"]:
+            if t not in [op[1] for op in ops if op[0] == "post"] and t not in [x[0] for x in case["onstart"]] \
+                    and len(case["neighbors"]) > 1:
+                d = dict(case)
+                d["neighbors"] = [x for x in case["neighbors"] if x != t]
+                yield d
     for f in case.get("fail", []):
         d = dict(ops=ops, fail=[x for x in case["fail"] if x != f])
         if not d["fail"]:
